@@ -60,6 +60,12 @@ var curatedRoots = []Root{
 	{FEN: "5k2/8/5K2/8/8/8/8/6R1 b - - 0 1", Tag: "near-mate"},
 	{FEN: "8/8/8/8/8/1k6/p7/K7 w - - 0 1", Tag: "stalemate"},
 	{FEN: "1k6/8/8/8/8/8/7r/K5r1 w - - 0 1", Tag: "mated"},
+	{FEN: "R6R/3Q4/1Q4Q1/4Q3/2Q4Q/Q4Q2/pp1Q4/kBNN1KB1 w - - 0 1", Tag: "218-moves"},
+	{FEN: "8/5P1k/5K2/8/8/8/8/8 w - - 0 1", Tag: "underpromotion"},
+	{FEN: "8/8/8/8/8/5k2/6p1/7K b - - 0 1", Tag: "promotion-or-stalemate"},
+	{FEN: "k7/2K5/8/8/8/8/8/1R6 w - - 0 1", Tag: "mate-in-1-single-plan"},
+	{FEN: "8/8/8/8/8/4k3/3p4/3K4 w - - 0 1", Tag: "single-reply"},
+	{FEN: "4k3/8/8/8/8/8/3PPP2/3QKB2 w - - 0 1", Tag: "few-moves"},
 	// long castling with the b-file square attacked is legal (only the king's path matters)
 	{FEN: "r3k2r/8/8/8/4b3/8/8/R3K2R w KQkq - 0 1", Moves: []string{"e1c1"}, Tag: "castle-long-b1-attacked"},
 	{FEN: "r3k2r/8/8/8/8/4B3/8/R3K2R b KQkq - 0 1", Moves: []string{"e8c8"}, Tag: "castle-long-b8-attacked"},
